@@ -140,6 +140,12 @@ def run(ctx):
             cp_card = i % 4 == 1
             if cp_card:
                 card["config"]["decay_chain"] = {"$all": {"is_cp": True}}
+            # every fifth card: candidate lists written out and the decays of each mother shuffled, so that chains of the same
+            # topology are NOT contiguous in the declaration (per-chain lists of the factorised strategies are paired by position)
+            interleaved = i % 5 == 2
+            if interleaved:
+                card = {"config": cards.expanded_config(card["config"], rng), "meta": card["meta"]}
+            ctx.covered("chain_declaration", "interleaved topologies" if interleaved else "grouped by topology")
             base = cards.load(card)
             amp0 = base.get_amplitude()
             p1 = cards.random_params(amp0, (ctx.seed, i))
